@@ -7,7 +7,7 @@
    written header.  The composition is decided by the correspondence runs of the parser and writer models and by the
    literal round trip through the public API (oracle) on every generated graph. *)
 From Coq Require Import String Ascii List Bool Arith NArith ZArith.
-Require Import PyStr PyInt Sexp Xml M_C09 T_C09 M_C08 M_C08d T_C08 Ns Table M_Parse T_Parse M_Write T_Write XmlL M_ParseText M_WriteText T_WriteText T_ReadWritten T_Write2 T_C05.
+Require Import PyStr PyInt Sexp Xml M_C09 T_C09 M_C08 M_C08d T_C08 Ns Table M_Parse T_Parse M_Write T_Write XmlL M_ParseText M_WriteText T_WriteText T_ReadWritten T_Write2 T_C05 T_C05r.
 Import ListNotations.
 Open Scope char_scope.
 
@@ -48,6 +48,33 @@ Theorem C05_nodeids_roundtrip : forall E ns p w d k refs ns1 fo,
     = map (fun r => (nr_cls r, with_ns (nr_nodeid r) (Z.of_nat j))) (filter (fun r => Z.eqb (nid_ns (nr_nodeid r)) (Z.of_nat k)) (p_nodes p)).
 Proof. exact nodeids_roundtrip. Qed.
 
+(* the references, writer composed with parser: the document written for U, parsed in any context whose table starts with the same
+   namespace 0, yields exactly the graph's references with an endpoint in U (after the outgoing-reference switch) - none invented
+   (sound), none lost (complete) - every source, target and type read back as the same identifier under the same namespace URI.
+   Hypotheses: the regularity conditions, well-formed identifiers that do not end in a blank (the parser right-strips reference
+   targets), and a graph closed under the references that touch U (what UAGraph's constructor checks, C11). *)
+Theorem C05_references_roundtrip_sound : forall E ns p w d k refs ns1 fo,
+  str_index (wp_uri w) (p_namespaces p) = Some k -> use_refs p w (Z.of_nat k) = Ok refs -> regular p k refs ->
+  write_doc p w = Ok d -> parse_file E ns d = Ok (ns1, fo) ->
+  (forall r, In r (p_nodes p) -> valid (nr_nodeid r) = true) ->
+  (forall r, In r (p_nodes p) -> rstrip (nid_value (nr_nodeid r)) = nid_value (nr_nodeid r)) ->
+  nth_error ns1 0 = Some (nth 0 (p_namespaces p) []) ->
+  (forall t, In t refs -> touches p k refs t = true -> is_node p (fst (fst t)) /\ is_node p (snd (fst t)) /\ is_node p (snd t)) ->
+  forall t', In t' (fo_refs fo) -> exists t, In t refs /\ touches p k refs t = true /\ same_triple p ns1 t t'.
+Proof. exact refs_roundtrip_sound. Qed.
+Theorem C05_references_roundtrip_complete : forall E ns p w d k refs ns1 fo,
+  str_index (wp_uri w) (p_namespaces p) = Some k -> use_refs p w (Z.of_nat k) = Ok refs -> regular p k refs ->
+  write_doc p w = Ok d -> parse_file E ns d = Ok (ns1, fo) ->
+  (forall r, In r (p_nodes p) -> valid (nr_nodeid r) = true) ->
+  (forall r, In r (p_nodes p) -> rstrip (nid_value (nr_nodeid r)) = nid_value (nr_nodeid r)) ->
+  nth_error ns1 0 = Some (nth 0 (p_namespaces p) []) ->
+  (forall t, In t refs -> touches p k refs t = true -> is_node p (fst (fst t)) /\ is_node p (snd (fst t)) /\ is_node p (snd t)) ->
+  forall t, In t refs -> touches p k refs t = true -> exists t', In t' (fo_refs fo) /\ same_triple p ns1 t t'.
+Proof. exact refs_roundtrip_complete. Qed.
+(* with a duplicate-free parser table (C03_no_duplicates) the (URI, identifier) reading determines the NodeId: the correspondence is one to one *)
+Theorem C05_same_node_functional : forall p ns1 n a b, NoDup ns1 -> same_node p ns1 n a -> same_node p ns1 n b -> a = b.
+Proof. exact same_node_functional. Qed.
+
 Print Assumptions C05_identifier_text.
 Print Assumptions C05_index_translation.
 Print Assumptions C05_shared_references_merge.
@@ -56,3 +83,6 @@ Print Assumptions C05_integer_values.
 Print Assumptions C05_written_header.
 Print Assumptions C05_read_written.
 Print Assumptions C05_nodeids_roundtrip.
+Print Assumptions C05_references_roundtrip_sound.
+Print Assumptions C05_references_roundtrip_complete.
+Print Assumptions C05_same_node_functional.
